@@ -103,12 +103,11 @@ def normPlan : Bool × Int × List Int × List Int := (true, 2, normAxes.1, norm
 /-- statement order of the RSS branch + tail of `EstimateSensitivityMapModule.forward`
 (= `estimateRSS`: `renorm ∘ rssNormalise`) -/
 def estimateOrder : List String :=
-  ["root_sum_of_squares", "safe_divide:acs_image/acs_image_rss", "norm",
-   "safe_divide:sensitivity_map/sensitivity_map_norm"]
+  ["safe_divide:self.estimate_acs_image(sample)/rss(same)", "safe_divide:<maps>/norm(same)"]
 
 /-- statement order of `compute_sensitivity_map` (= `computeSensitivityMap`: refine, then `renorm`) -/
 def engineOrder : List String :=
-  ["refine", "norm", "safe_divide:sensitivity_map/sensitivity_map_norm"]
+  ["refine", "safe_divide:<maps>/norm(same)"]
 
 /-! ## layout: `(batch, coil, *spatial, complex = 2)` ↔ `[coil][pixel]`, reductions and unsqueezes -/
 
@@ -268,12 +267,11 @@ def permOut3d : List Nat := [0, 1, 3, 4, 5, 2]
 
 /-! ### structural tables (purity, single definition, option forwarding) -/
 
-/-- an effect row `(function, kind, target)` of the purity table is harmless: the only stores are on fresh
-locals (`sensitivity_map` of the UNIT branch, `gaussian_mask_shape`) and on the output key of the sample -/
+/-- an effect row `(function, kind, target)` of the (semantic) effects table is harmless: rows exist only for writes that
+reach an input (a parameter or a view of one), instance state, dictionary keys of a parameter, in-place calls on inputs, and
+for the return structure; the only admissible ones are the write of the output key and a single final return -/
 def effectAllowed (e : String × String × String) : Bool :=
-  (e.2.1 == "subscript-store" &&
-    ((e.1 == "EstimateSensitivityMapModule.forward" && (e.2.2 == "sensitivity_map" || e.2.2 == "sample['sensitivity_map']")) ||
-     (e.1 == "EstimateSensitivityMapModule.estimate_acs_image" && e.2.2 == "gaussian_mask_shape"))) ||
+  (e.2.1 == "dict-key-write" && e.1 == "EstimateSensitivityMapModule.forward" && e.2.2 == "sensitivity_map") ||
   (e.2.1 == "return-count" && e.2.2 == "1")
 
 /-- forwarding rows `(builder, constructor keyword, expression)` required of every place that constructs the module -/
@@ -289,21 +287,21 @@ def forwardingOk (site : String × List (String × String)) : Bool :=
 
 /-- the branch table of `forward`: `(map type tested, what the branch leaves in sensitivity_map)` — `forwardMap` -/
 def forwardBranches : List (String × String) :=
-  [("UNIT", "unit-fill"), ("RSS_ESTIMATE", "safe_divide:acs_image/acs_image_rss"), ("else", "espirit_calibrator")]
+  [("UNIT", "unit-fill"), ("RSS_ESTIMATE", "safe_divide:self.estimate_acs_image(sample)/rss(same)"),
+   ("else", "espirit_calibrator")]
 
 /-- the only write to the output key is the guarded division of the common tail -/
-def forwardOutputWrites : List String := ["T.safe_divide(sensitivity_map, sensitivity_map_norm)"]
+def forwardOutputWrites : List String := ["safe_divide:<maps>/norm(same)"]
 
 /-- the Gaussian window as the model assumes it: `linspace(-1, 1, size of the width axis)`, exponent divided by sigma -/
-def windowLinspace : Int × Int × String × String := (-1, 1, "kspace_data.size(width_dim)", "self.gaussian_sigma")
+def windowLinspace : Int × Int × String × String := (-1, 1, "width_dim", "self.gaussian_sigma")
 
-/-- guard of the window (`gaussianActive`): off for `None` and for `0` -/
-def windowGuardClauses : List String := ["not self.gaussian_sigma", "self.gaussian_sigma == 0"]
+/-- guard of the window (`gaussianActive`), evaluated on the probe values None, 0, 0.0, 0.5, -2.0: on exactly for the
+non-zero numbers -/
+def windowOnFor : List String := ["0.5", "-2.0"]
 
-/-- `acsKspace`: mask only / mask and window -/
-def windowProducts : String × String :=
-  ("T.apply_mask(kspace_data, sample['acs_mask'], return_mask=False)",
-   "T.apply_mask(kspace_data, sample['acs_mask'], return_mask=False) * gaussian_mask")
+/-- the ACS mask is applied by `apply_mask` (`maskPixels`) and by nothing else -/
+def acsMaskPrimitives : List String := ["T.apply_mask"]
 
 /-- `maskPixels`: the `torch.where` of `apply_mask` — (condition, value where it holds, value elsewhere) -/
 def applyMaskWhere : String × String × String := ("mask == 0", "0", "kspace")
